@@ -533,6 +533,8 @@ MISBEHAVIOURS = (
     "unknown_type_payload",  # type 0x77 with a payload that is never read by the server
     "len_over_max",         # LOAD_EXEC announcing VMD_MAX_PAYLOAD+1
     "len_huge",             # LOAD_EXEC announcing 0xFFFFFFF0
+    "len_over_max_hold",    # header announcing VMD_MAX_PAYLOAD+1, nothing more, write side left open: must be refused at once
+    "len_huge_hold",        # header announcing 0xFFFFFFF0, nothing more, write side left open
     "len_zero",             # LOAD_EXEC with length 0
     "ping_with_payload",    # PING announcing (and sending) 16 payload bytes
     "non_module",           # valid header + payload that is not a module (text / random bytes)
@@ -601,6 +603,37 @@ def misbehave(vmd_dir, kind, blob, rng, timeout=30.0, n_bytes=None):
                 except OSError:
                     pass
                 read_reply(s, timeout, rep=rep)
+        elif kind in ("len_over_max_hold", "len_huge_hold"):
+            # Yardstick: how long this daemon takes to refuse another malformed header (wrong version) right now.
+            y0 = time.monotonic()
+            y = _session(vmd_dir, lambda s2, r2: _send(s2, header(LOAD_EXEC, 16, version=9) + bytes(16), r2) and read_reply(s2, timeout, rep=r2), timeout)
+            yard = time.monotonic() - y0 if y.ended() and not y.exc else None
+            n = MAX_PAYLOAD + 1 if kind == "len_over_max_hold" else 0xFFFFFFF0
+            t0 = time.monotonic()
+            if _send(s, header(LOAD_EXEC, n), rep) and yard is not None:
+                need_s = max(3.0, 50.0 * yard)
+                served_later = 0
+                while True:
+                    read_reply(s, 0.25, rep=rep)
+                    if rep.ended():
+                        rep.timeout = False
+                        break
+                    rep.timeout = False                      # the 0.25 s slices are polling, not the watchdog
+                    # sessions that arrive AFTER our header and are served completely (connections are accepted in order)
+                    if ping(vmd_dir, 10.0).pong and (status(vmd_dir, 10.0).active_clients() or 0) >= 2:
+                        served_later += 2
+                    el = time.monotonic() - t0
+                    if served_later >= 16 and el >= need_s:
+                        rep.lost = ("no ERROR frame and no EOF %.1f s after the oversize header was delivered (a wrong-version header was "
+                                    "refused in %.3f s on this daemon just before), while %d later PING/STATUS sessions were served and STATUS "
+                                    "still counts this connection" % (el, yard, served_later))
+                        rep.closed_by_us = True
+                        break
+                    if el >= timeout:
+                        rep.timeout = True                   # watchdog: inconclusive material
+                        break
+            elif yard is None:
+                rep.exc = "yardstick session (wrong version) did not end: %s" % y.brief()
         elif kind == "len_zero":
             if _send(s, header(LOAD_EXEC, 0), rep):
                 read_reply(s, timeout, rep=rep)
